@@ -444,6 +444,269 @@ example : nextId (runsAfter { nodes := [(1, placeholderNode), (7, placeholderNod
   rw [restart_restores _ h]
   decide
 
+/-! ### Across restarts on a persistence file that was damaged in place
+
+A run of the controller starts with `async with gateway:` on a NEW gateway object: `__aenter__` awaits `Persistence.load`
+first and lets its error leave the statement (`Lifecycle.mainStep`: the `.load` phase with a failing load finishes the
+statement with `loadErr`, nothing was started — C16 `load_failure_starts_nothing`; `LifecycleBodiesEq` ties that to the text
+of `__aenter__`).  So there is a session — and ids are handed out — only when the load RETURNED.  Between the runs the
+file may be left in any state by an interrupted save of the library itself (C15: truncate, then write), a failing medium
+or a tool: cut short, undecodable, no JSON, nested too deeply, JSON of another shape, one record that is no node among
+records that are, unreadable.  None of these can be loaded, so none of them starts a run; and a load that does return has
+restored EVERY record of the file.  Over a life of traffic, ends of sessions (final save), starts, and a file that is left
+in states which — if they can be loaded at all — still give back the id, an id handed out once is never handed out again.
+(Another registry put there by someone else — a loadable file without the id, an empty file, no file — is not such a
+state: the file as it stands is then the persisted registry, C14, and nothing is promised.) -/
+
+/-- The start of a run on whatever the persistence file is found to be: the new object's registry when the load
+returns; no session when it raises. -/
+def startOn (fs : Persist.FileState) : Option St :=
+  match Persist.loadFile [] fs with
+  | .ok res => some { nodes := res.nodes }
+  | .error _ => none
+
+theorem startOn_some (fs : Persist.FileState) (st : St) (h : startOn fs = some st) :
+    ∃ res, Persist.loadFile [] fs = .ok res ∧ st = { nodes := res.nodes } := by
+  unfold startOn at h
+  split at h
+  · next res hres => exact ⟨res, hres, by simpa using h.symm⟩
+  · simp at h
+
+/-- A path that cannot be read, bytes that are no text, text that is no JSON, an integer or a nesting beyond the
+interpreter's limits: no run starts. -/
+theorem start_refused_unreadable : startOn .unreadable = none ∧ startOn .undecodable = none ∧ startOn .notJson = none ∧
+    startOn .hugeInt = none ∧ startOn .tooDeep = none := by
+  refine ⟨?_, ?_, ?_, ?_, ?_⟩ <;> rfl
+
+theorem loadNodes_error_of_bad_record : ∀ (kvs : List (Str × Json)) (acc : PDict Int Node) (kv : Str × Json) (e : PyExn),
+    kv ∈ kvs → Schema.loadNode kv.2 = .error e → ∃ e', Persist.loadNodes acc kvs = .error e' := by
+  intro kvs
+  induction kvs with
+  | nil => intro _ _ _ h; simp at h
+  | cons x xs ih =>
+    intro acc kv e hmem hbad
+    obtain ⟨key, v⟩ := x
+    simp only [Persist.loadNodes]
+    rcases List.mem_cons.mp hmem with rfl | hmem
+    · simp only at hbad
+      rw [hbad]
+      exact ⟨e, rfl⟩
+    · split
+      · exact ih _ kv e hmem hbad
+      · next e' _ => exact ⟨e', rfl⟩
+
+theorem loadFile_error_of_raw (j : Json) (c : PyExn) (h : Persist.loadRaw [] j = .error c) :
+    ∃ e, Persist.loadFile [] (.value j) = .error e := by
+  cases hp : pyCaught c (clause Gen.excPersistLoad 2) <;>
+    simp [Persist.loadFile, Persist.readFile, Persist.loadInto, Persist.mapRead, h, hp]
+
+/-- JSON of another shape than an object, or an object in which ONE record is not a node — wherever it stands among
+records that are: no run starts. -/
+theorem start_refused_wrong_shape (j : Json) (h : ∀ kvs, j ≠ .obj kvs) : startOn (.value j) = none := by
+  unfold startOn
+  have : ∃ e, Persist.loadFile [] (.value j) = .error e := by
+    apply loadFile_error_of_raw j .AttributeError
+    cases j <;> first
+      | rfl
+      | exact absurd rfl (h _)
+  obtain ⟨e, he⟩ := this
+  rw [he]
+
+theorem start_refused_bad_record (kvs : List (Str × Json)) (kv : Str × Json) (e : PyExn) (hmem : kv ∈ kvs)
+    (hbad : Schema.loadNode kv.2 = .error e) : startOn (.value (.obj kvs)) = none := by
+  unfold startOn
+  obtain ⟨e', he'⟩ := loadNodes_error_of_bad_record kvs [] kv e hmem hbad
+  have : ∃ x, Persist.loadFile [] (.value (.obj kvs)) = .error x :=
+    loadFile_error_of_raw _ e' (by simpa [Persist.loadRaw] using he')
+  obtain ⟨x, hx⟩ := this
+  rw [hx]
+
+theorem loadNodes_restores_all (kvs : List (Str × Json)) : ∀ (acc r : PDict Int Node),
+    Persist.loadNodes acc kvs = .ok r →
+    ∀ kv ∈ kvs, ∃ id n, Schema.loadNode kv.2 = .ok (id, n) ∧ r.has id = true := by
+  induction kvs with
+  | nil => intro _ _ _ kv h; simp at h
+  | cons x xs ih =>
+    intro acc r h kv hmem
+    obtain ⟨key, v⟩ := x
+    simp only [Persist.loadNodes] at h
+    split at h
+    · next id n hn =>
+      rcases List.mem_cons.mp hmem with rfl | hmem
+      · exact ⟨id, n, hn, loadNodes_keeps id xs _ r h (PDict.has_set_self _ _ _)⟩
+      · exact ih _ _ h kv hmem
+    · simp at h
+
+/-- **A run that starts has restored every record the file holds**: each is a node record, and its id is registered. -/
+theorem start_restores_every_record (kvs : List (Str × Json)) (st : St) (h : startOn (.value (.obj kvs)) = some st) :
+    ∀ kv ∈ kvs, ∃ id n, Schema.loadNode kv.2 = .ok (id, n) ∧ st.nodes.has id = true := by
+  obtain ⟨res, hres, rfl⟩ := startOn_some _ _ h
+  simp only [Persist.loadFile, Persist.readFile, Persist.loadInto, Persist.mapRead, Persist.loadRaw] at hres
+  split at hres
+  · next r hr =>
+    split at hr
+    · next r' hr' =>
+      simp only [Except.ok.injEq] at hr hres
+      subst hr; subst hres
+      exact loadNodes_restores_all kvs _ _ hr'
+    · split at hr <;> simp at hr
+  · simp at hres
+
+/-- What the file, left in the state `fs`, is worth for the id `k`: IF it can be loaded at all, loading it gives a
+registry that `save` can write back and in which `k` is registered.  (Every state that cannot be loaded is such a state;
+the file as last saved is one; a missing or empty file, or a loadable file without `k`, is not.) -/
+def FileKeeps (k : Int) (fs : Persist.FileState) : Prop :=
+  ∀ res, Persist.loadFile [] fs = .ok res → RegOK res.nodes ∧ res.nodes.has k = true
+
+theorem fileKeeps_of_refused (k : Int) (fs : Persist.FileState) (h : startOn fs = none) : FileKeeps k fs := by
+  intro res hres
+  simp [startOn, hres] at h
+
+/-- The file as a final save wrote it keeps every registered id. -/
+theorem fileKeeps_saved (k : Int) (nodes : PDict Int Node) (h : RegOK nodes) (hk : nodes.has k = true) :
+    FileKeeps k (.value (Persist.save nodes)) := by
+  intro res hres
+  have := load_save_aux nodes h
+  simp only [Persist.load] at this
+  simp only [Persist.loadFile, Persist.readFile, this, Except.ok.injEq] at hres
+  subst hres
+  refine ⟨persisted_regOK _ h, ?_⟩
+  show (Persist.persisted nodes).has k = true
+  rw [PDict.has_iff_mem_keys, keys_persisted, ← PDict.has_iff_mem_keys]
+  exact hk
+
+theorem not_fileKeeps_missing_empty (k : Int) : ¬ FileKeeps k .missing ∧ ¬ FileKeeps k .empty := by
+  constructor <;> intro h
+  · have := (h ⟨[], some (Persist.save [])⟩ rfl).2
+    simp [PDict.has, PDict.get?] at this
+  · have := (h ⟨[], none⟩ rfl).2
+    simp [PDict.has, PDict.get?] at this
+
+/-- A controller with a persistence file: what stands at the path, and the gateway object of the run that is going
+(none: stopped, or the last start was refused). -/
+structure Ctl where
+  file : Persist.FileState
+  run : Option St
+
+inductive CtlOp where
+  /-- traffic handled by the run that is going (nothing is handled when none is) -/
+  | gw (op : Op)
+  /-- the session ends, however: `__aexit__` saves the registry a final time -/
+  | stop
+  /-- the controller is started: a new object loads the file; when the load returns, the scheduled save writes what
+  was loaded; when it raises there is no session -/
+  | start
+  /-- the file is left in the state `fs` (an interrupted save, the medium, a tool, someone's backup) -/
+  | touch (fs : Persist.FileState)
+
+def ctlStep (c : Ctl) : CtlOp → Ctl
+  | .gw op => { c with run := c.run.map fun st => (stepOp st op).1 }
+  | .stop =>
+    match c.run with
+    | some st => { file := .value (Persist.save st.nodes), run := none }
+    | none => c
+  | .start =>
+    match c.run with
+    | some _ => c
+    | none =>
+      match startOn c.file with
+      | some st => { file := .value (Persist.save st.nodes), run := some st }
+      | none => c
+  | .touch fs => { c with file := fs }
+
+def ctlAfter (c : Ctl) (ops : List CtlOp) : Ctl := ops.foldl ctlStep c
+
+/-- The id `k` is not lost: the run that is going has it registered; with no run going, the file keeps it. -/
+def CtlInv (k : Int) (c : Ctl) : Prop :=
+  match c.run with
+  | some st => RegOK st.nodes ∧ st.nodes.has k = true
+  | none => FileKeeps k c.file
+
+/-- The life damages the file only in place, as far as `k` goes: whenever the file is touched while no run is going,
+it is left in a state that keeps `k` (any state that cannot be loaded does). -/
+def LifeOK (k : Int) : Ctl → List CtlOp → Prop
+  | _, [] => True
+  | c, op :: ops => (∀ fs, op = .touch fs → c.run = none → FileKeeps k fs) ∧ LifeOK k (ctlStep c op) ops
+
+theorem ctl_keeps (k : Int) : ∀ (ops : List CtlOp) (c : Ctl), CtlInv k c → LifeOK k c ops → CtlInv k (ctlAfter c ops) := by
+  intro ops
+  induction ops with
+  | nil => intro c h _; exact h
+  | cons op ops ih =>
+    intro c hinv hok
+    obtain ⟨htouch, hrest⟩ := hok
+    refine ih (ctlStep c op) ?_ hrest
+    obtain ⟨file, run⟩ := c
+    cases op with
+    | gw o =>
+      cases run with
+      | none => exact hinv
+      | some st =>
+        obtain ⟨hreg, hk⟩ := hinv
+        refine ⟨stepOp_regOK st o hreg, ?_⟩
+        have := keys_monotone_history [o] st k hk
+        simpa [stateAfter, run] using this
+    | stop =>
+      cases run with
+      | none => exact hinv
+      | some st => exact fileKeeps_saved k st.nodes hinv.1 hinv.2
+    | start =>
+      cases run with
+      | some st => exact hinv
+      | none =>
+        simp only [ctlStep]
+        split
+        · next st hst =>
+          obtain ⟨res, hres, rfl⟩ := startOn_some _ _ hst
+          exact hinv res hres
+        · exact hinv
+    | touch fs =>
+      cases run with
+      | some st => exact hinv
+      | none => exact htouch fs rfl rfl
+
+/-- **Never twice, whatever happens to the file short of another registry being put there**: an id handed out by a run
+of the controller differs from the id any later run hands out, over every life of traffic, session ends, starts and
+damage to the file — a start on a damaged file is refused, a start that succeeds has the id back. -/
+theorem never_handed_out_twice_damaged_file (st : St) (h : RegOK st.nodes) (hle : nextId st.nodes ≤ Gen.maxNodeId)
+    (fs0 : Persist.FileState) (ops : List CtlOp) :
+    let id := nextId st.nodes
+    let st1 : St := { st with nodes := st.nodes.set id placeholderNode }
+    LifeOK id ⟨fs0, some st1⟩ ops →
+    ∀ st', (ctlAfter ⟨fs0, some st1⟩ ops).run = some st' → nextId st'.nodes ≠ id := by
+  intro id st1 hok st' hrun e
+  have hmax : Gen.maxNodeId ≤ Gen.nodeIdMax := by decide
+  have hreg : RegOK st1.nodes :=
+    regOK_set st.nodes _ _ h (nodeOK_fresh _ _ _ (nextId_ge_min _ h) (by omega))
+  have h1 : st1.nodes.has id = true := PDict.has_set_self _ _ _
+  have hinv : CtlInv id (ctlAfter ⟨fs0, some st1⟩ ops) := ctl_keeps id ops _ ⟨hreg, h1⟩ hok
+  unfold CtlInv at hinv
+  rw [hrun] at hinv
+  have h3 := nextId_fresh st'.nodes
+  rw [e, hinv.2] at h3
+  exact absurd h3 (by simp)
+
+/-- Non-vacuity: the file is cut short after the run (no JSON any more): the next start is refused; once the file is
+back as it was saved, the next run continues above the ids of the first. -/
+example :
+    let nodes : PDict Int Node := [(1, placeholderNode), (7, placeholderNode)]
+    (ctlAfter ⟨.missing, some { nodes := nodes }⟩ [.stop, .touch .notJson, .start]).run.isNone = true ∧
+    ((ctlAfter ⟨.missing, some { nodes := nodes }⟩
+        [.stop, .touch .notJson, .start, .touch (.value (Persist.save nodes)), .start]).run.map fun s => nextId s.nodes)
+      = some 8 := by
+  intro nodes
+  have h : RegOK nodes := by decide
+  have hl : Persist.loadFile [] (.value (Persist.save nodes)) = .ok ⟨Persist.persisted nodes, none⟩ := by
+    have := load_save_aux nodes h
+    simp only [Persist.load] at this
+    simp [Persist.loadFile, Persist.readFile, this]
+  have hs : startOn (.value (Persist.save nodes)) = some { nodes := Persist.persisted nodes } := by
+    simp [startOn, hl]
+  have hn : startOn .notJson = none := rfl
+  refine ⟨by simp [ctlAfter, ctlStep, hn], ?_⟩
+  simp only [ctlAfter, List.foldl, ctlStep, hn, hs, Option.map]
+  decide
+
 /-! Non-vacuity -/
 example : nextId ([(1, placeholderNode), (7, placeholderNode), (3, placeholderNode)] : PDict Int Node) = 8 := by decide
 example : nextId ([] : PDict Int Node) = 1 := by decide
